@@ -556,27 +556,29 @@ type Harness struct {
 }
 
 type HarnessResult struct {
-	Name        string
-	Paths       int
-	OK          int
-	Panics      int
-	Deadlocks   int
-	Dead        int
-	Aborts      int
-	AbortWhy    map[string]int
-	PanicWhy    map[string]int
-	Asserts     int
-	Proved      int
-	Unknown     int
-	NInstr      int64
-	Violations  []Violation
-	Samples     []ObligationSample
-	Witnesses   int
-	Funcs       map[string]bool
-	Solver      SolverStats
-	Wall        time.Duration
-	BudgetHit   bool
-	EngineError string
+	Name                string
+	Paths               int
+	OK                  int
+	Panics              int
+	Deadlocks           int
+	Dead                int
+	Aborts              int
+	AbortWhy            map[string]int
+	PanicWhy            map[string]int
+	Asserts             int
+	Proved              int
+	Unknown             int
+	NInstr              int64
+	Violations          []Violation
+	Samples             []ObligationSample
+	Witnesses           int
+	Funcs               map[string]bool
+	Solver              SolverStats
+	Wall                time.Duration
+	BudgetHit           bool
+	NewViolations       int
+	StoppedOnViolations bool
+	EngineError         string
 }
 
 type Worker struct {
@@ -639,6 +641,11 @@ func runHarness(p *Program, h *Harness, nworkers int) *HarnessResult {
 						res.BudgetHit = true
 						stop = true
 					}
+					if res.NewViolations >= 12 && len(queue) > 0 {
+						// enough counterexamples to report; the rest of the space is not explored
+						res.StoppedOnViolations = true
+						stop = true
+					}
 				}
 				mu.Unlock()
 				cond.Broadcast()
@@ -689,6 +696,11 @@ func mergePath(res *HarnessResult, m *Machine) {
 	}
 	if len(res.Violations) < 200 {
 		res.Violations = append(res.Violations, r.Violations...)
+	}
+	for _, v := range r.Violations {
+		if len(v.Known) == 0 {
+			res.NewViolations++
+		}
 	}
 	if r.Sample != nil && len(res.Samples) < 4 {
 		res.Samples = append(res.Samples, *r.Sample)
